@@ -29,6 +29,7 @@ package webdoc
 import (
 	"fmt"
 	nurl "net/url"
+	"strings"
 
 	"github.com/go-shiori/dom"
 	"github.com/markusmobius/go-domdistiller/internal/domutil"
@@ -154,7 +155,16 @@ func (t *Text) GenerateOutput(textOnly bool) string {
 	}
 
 	if CanBeNested(dom.TagName(clonedRoot)) {
-		return dom.InnerHTML(clonedRoot)
+		// The white space at both ends is kept (dom.InnerHTML trims it): the text of
+		// a list item or a quote may come in several pieces (e.g. around a skipped form
+		// control), that are written one after the other.
+		var sb strings.Builder
+		for child := clonedRoot.FirstChild; child != nil; child = child.NextSibling {
+			if err := html.Render(&sb, child); err != nil {
+				return ""
+			}
+		}
+		return sb.String()
 	}
 
 	return dom.OuterHTML(clonedRoot)
